@@ -1903,8 +1903,15 @@ func (w *World) lenFloor(typ string) (int64, string, bool) {
 		if ls == nil || ls.Term == nil {
 			return 0, "", false
 		}
-		lb, ok := w.ExpandLens(ls.Term, 0).LowerBound()
+		et := w.ExpandLens(ls.Term, 0)
+		lb, ok := et.LowerBound()
 		if !ok {
+			lb = 0
+		}
+		// size functions return uint16: a size that ADDS to a stored (declared, possibly wire-given) 16-bit
+		// value can exceed 65535 and wrap to anything, including 0, however small the element really is. Sizes
+		// made of the element's actual contents are bounded by the input and are outside this concern.
+		if lb > 0 && declaredSizeCanWrap(et) {
 			lb = 0
 		}
 		if min < 0 || lb < min {
@@ -2019,4 +2026,47 @@ func sortCursors(cs []*CursorStep) {
 func isBoolType(t types.Type) bool {
 	b, ok := t.Underlying().(*types.Basic)
 	return ok && b.Info()&types.IsBoolean != 0
+}
+
+// declaredSizeCanWrap: with the content-derived parts of the size at their minimum, the stored integer
+// fields it adds (val atoms, at the maximum of a 16-bit field unless a smaller range is declared) can push a
+// uint16 result past 65535.
+func declaredSizeCanWrap(t *Term) bool {
+	has := false
+	var maxOf func(t *Term) int64
+	maxOf = func(t *Term) int64 {
+		total := t.C
+		for k, c := range t.K {
+			a := t.Atoms[k]
+			if c <= 0 {
+				continue
+			}
+			switch a.Kind {
+			case "val":
+				has = true
+				m := int64(65535)
+				if d, ok := atomMax[k]; ok && d < m {
+					m = d
+				}
+				total += c * m
+			case "round8":
+				total += c * ((maxOf(a.Sub[0]) + 7) / 8 * 8)
+			case "wrap":
+				total += c * maxOf(a.Sub[0])
+			case "ite":
+				m0, m1 := maxOf(a.Sub[0]), maxOf(a.Sub[1])
+				if m1 > m0 {
+					m0 = m1
+				}
+				total += c * m0
+			case "mul":
+				if len(a.Sub) == 2 {
+					total += c * maxOf(a.Sub[0]) * maxOf(a.Sub[1])
+				}
+			}
+		}
+		return total
+	}
+	m := maxOf(t)
+	return has && m > 65535
 }
